@@ -83,7 +83,7 @@ CHECKS["C02"] = {
     "level_text": "every flow within the node/deviation bound (aliases, namespaces, jumpIf entries incl. END / backward / unknown / ambiguous targets and undeclared results, "
                   "END nodes, duplicate and reserved filter names, empty flow) is validated through supervisor.NewSpec and compared with the reference predicate; every accepted flow is "
                   "executed on the real Pipeline for every vector of filter results and compared with the reference interpreter (invocation order, namespace, result, stats names); "
-                  "before/main/after triples through HandleWithBeforeAfter; unit globalfilter: (before, main, after) triples configured through the real GlobalFilter (spec validation, Init, and Init+Inherit over a menu of 6 sides incl. "filters without flow") and run by GlobalFilter.Handle",
+                  "before/main/after triples through HandleWithBeforeAfter; unit globalfilter: (before, main, after) triples configured through the real GlobalFilter (spec validation, Init, and Init+Inherit over a menu of 6 sides incl. filters-without-flow) and run by GlobalFilter.Handle",
     "level_note": "finite alphabet (filters f1,f2 of a test kind with results r1,r2); deviation = a non-default alias/namespace/jump entry/filter list; reference = DESIGN A.2",
     "rule": "choice tree: filter list, flow length, per node filter/alias/namespace/jump targets, then the result of every filter invocation; "
             "distinct_nontrivial = distinct (number of filters run, ended?, last result | rejected) classes",
